@@ -1,9 +1,76 @@
 import CotengraVerif.Driver.Util
+import CotengraVerif.Model.Reuse
 
 namespace Cotengra.Driver.C16
-open Lean Cotengra Cotengra.Driver
+open Lean Cotengra Cotengra.Driver Cotengra.Hyper Cotengra.Reuse
 
-/-- ops of property C16 (name them "c16.<op>") -/
-def handlers : List (String × Handler) := []
+def scoreOf (j : Json) : Except String Score :=
+  match j with
+  | .null => pure none
+  | _ => do pure (some (← natOf j))
+
+def jOptNat : Option Nat → Json
+  | none => Json.null
+  | some a => jNat a
+
+def pcName : PC → String
+  | .idle => "idle" | .gotOpt _ => "gotOpt" | .hashed _ _ => "hashed" | .ran _ _ _ => "ran"
+  | .stored _ _ _ => "stored" | .compare _ _ _ => "compare" | .have _ _ _ => "have"
+
+/-- op `c16.run`: run a schedule.
+    `mode`: "reusable" | "auto_cached" | "auto_plain"; `overwrite`: "no" | "yes" | "improved";
+    `cache_only`, `fresh_plain`: bool; `queues`: per thread, list of [net, key, hard];
+    `trials`: per thread, per sub-search, list of trial scores (null = failed trial);
+    `schedule`: list of thread indices; `obj_of` (optional): per thread, the Reusable object it uses.  Returns per thread: results, number of sub-searches,
+    program point; and for every queried key whether the thread's object caches it. -/
+def run : Handler := fun j => do
+  let mode ← match ← (← field j "mode").getStr? with
+    | "reusable" => pure Mode.reusable
+    | "auto_cached" => pure Mode.autoCached
+    | "auto_plain" => pure Mode.autoPlain
+    | s => throw s!"unknown mode {s}"
+  let ov ← match ← (← field j "overwrite").getStr? with
+    | "no" => pure Overwrite.no
+    | "yes" => pure Overwrite.yes
+    | "improved" => pure Overwrite.improved
+    | s => throw s!"unknown overwrite {s}"
+  let cacheOnly ← (fieldD j "cache_only" (Json.bool false)).getBool?
+  let fresh ← (fieldD j "fresh_plain" (Json.bool true)).getBool?
+  let queues ← (← arrOf (← field j "queues")).mapM fun qs => do
+    (← arrOf qs).mapM fun q => do
+      match ← arrOf q with
+      | [n, k, h] => pure ({ net := ← natOf n, key := ← natOf k, hard := ← h.getBool? } : Query)
+      | _ => throw "query must be [net, key, hard]"
+  let trials ← (← arrOf (← field j "trials")).mapM fun per => do
+    (← arrOf per).mapM fun log => do
+      (← arrOf log).mapM fun sc => do
+        let s ← scoreOf sc
+        pure ((⟨0, 0⟩ : Setting),
+          ({ score := s, flops := s, write := s, size := s,
+             tree := if s.isSome then some 0 else none } : Trial))
+  let sched ← natList (← field j "schedule")
+  let objOf ← natList (fieldD j "obj_of" (jNats []))
+  let cfg : Cfg :=
+    { mode := mode, overwrite := ov, cacheOnly := cacheOnly, freshPlain := fresh,
+      trials := fun t i => ((trials.getD t []).getD i []),
+      objOf := fun t => match objOf[t]? with
+        | some o => o
+        | none => match mode with
+          | .reusable => 0
+          | _ => t }
+  let s0 := Sys.start fun t => queues.getD t []
+  let s := runSched cfg s0 sched
+  let n := queues.length
+  let outs := (List.range n).map fun t =>
+    let th := s.threads t
+    let keys := ((queues.getD t []).map (·.key)).eraseDups
+    jObj [("results", jArr (th.results.map fun (q, r) => jArr [jNat q.net, jOptNat r])),
+          ("nsearch", jNat th.nsearch), ("pc", jStr (pcName th.pc)),
+          ("left", jNat th.queue.length),
+          ("cached", jArr (keys.map fun k =>
+            jArr [jNat k, jBool ((s.objs (cfg.objOf t)).cache k).isSome]))]
+  pure (jObj [("threads", jArr outs)])
+
+def handlers : List (String × Handler) := [("c16.run", run)]
 
 end Cotengra.Driver.C16
